@@ -59,8 +59,8 @@ KeyRec == l > 0 /\ R.k \in {"key", "fkey"}
 VerifiesIn(d, e) == \E i \in DOMAIN d.vep : d.vep[i] = e
 ReqMacOk == IF KeyRec THEN VerifiesIn(R.q, R.ep) ELSE R.macok
 OutMacOk(o) == IF KeyRec THEN VerifiesIn(o, R.ep) ELSE o.auth = "ok"
-Stateless == l > 0 /\ R.k \in {"req", "e2e"}   \* ... at a listener whose key cache does not matter
-E2E  == l > 0 /\ R.k = "e2e"
+Stateless == l > 0 /\ R.k \in {"req", "e2e"} /\ ~R.amb   \* ... at a listener whose key cache does not matter
+E2E  == l > 0 /\ R.k = "e2e" /\ ~R.amb
 Q == R.q
 O(i) == R.outs[i]
 NtpRep(o) == o.l4 = "udp" /\ o.pl = "ntpResp"
